@@ -163,5 +163,116 @@ impl StandardCompaction {
 //@ END
 }
 
+/// BlobFileWriter (vlog::blob_file::multi_writer): finish() returns the blob files it wrote
+#[verifier::external_body] pub struct BlobFileWriter { p: u8 }
+impl BlobFileWriter { #[verifier::external_body] pub fn finish(self) -> (r: Result<Vec<BlobFile>, Error>) { unimplemented!() } }
+/// Vec::extend with a Vec
+#[verifier::external_body] pub fn extend_blob_files(v: &mut Vec<BlobFile>, more: Vec<BlobFile>) ensures final(v)@ == old(v)@ + more@ { unimplemented!() }
+#[verifier::external_body] pub struct BlobScanner { p: u8 }
+#[verifier::external_body] pub struct IdSetOwned { p: u8 }
+
+//@ FROM src/compaction/flavour.rs :: - :: struct RelocatingCompaction
+//@ SUBST `Peekable < BlobFileMergeScanner >` ==> `BlobScanner`
+//@ SUBST `HashSet < BlobFileId >` ==> `IdSetOwned`
+struct RelocatingCompaction {
+    inner: StandardCompaction,
+    blob_scanner: BlobScanner,
+    blob_writer: BlobFileWriter,
+    rewriting_blob_file_ids: IdSetOwned,
+    rewriting_blob_files: Vec<BlobFile>,
+}
+//@ END
+impl RelocatingCompaction {
+//@ FROM src/compaction/flavour.rs :: CompactionFlavour for RelocatingCompaction :: fn finish :: OBL C05.4, C20.4, C16.5, C08.12
+//@ SUBST `crate :: Result < ( ) >` ==> `Result<(), Error>`
+//@ SUBST `std :: mem :: take ( & mut self . inner . tables_to_rewrite )` ==> `take_tables(&mut self.inner.tables_to_rewrite)`
+//@ SUBST `created_blob_files . extend ( extra_blob_files )` ==> `extend_blob_files(&mut created_blob_files, extra_blob_files)`
+//@ SUBST `& payload . table_ids . iter ( ) . copied ( ) . collect :: < Vec < _ > > ( )` ==> `&payload.table_id_vec()`
+//@ SUBST `& blob_files_to_drop . iter ( ) . map ( BlobFile :: id ) . collect :: < HashSet < _ > > ( )` ==> `&ids_of(&blob_files_to_drop)`
+//@ SUBST `. mark_as_deleted ( )` ==> `.mark_as_deleted(Ghost(published))`
+    fn finish(
+        mut self: Box<Self>,
+        super_version: &mut SuperVersions,
+        opts: &Options,
+        payload: &CompactionPayload,
+        dst_lvl: usize,
+        blob_frag_map_diff: FragmentationMap,
+        extra_blob_files: Vec<BlobFile>,
+    ) -> /*+*/(r:/*-*/ Result<(), Error>/*+*/)
+        requires old(super_version).h@.len() > 0,
+        ensures
+            r is Err ==> final(super_version).h@.len() <= old(super_version).h@.len() + 1,/*-*/
+    {
+        /*+*/let ghost mut published = false;
+        let ghost n0 = super_version.h@.len();
+        let ghost rewritten = self.rewriting_blob_files@;/*-*/
+        let table_ids_to_delete = take_tables(&mut self.inner.tables_to_rewrite);
+
+        let created_tables = self.inner.consume_writer(opts, dst_lvl)?;
+        let mut created_blob_files = self.blob_writer.finish()?;
+        /*+*/let ghost written = created_blob_files@;/*-*/
+        extend_blob_files(&mut created_blob_files, extra_blob_files);
+
+        let mut blob_files_to_drop = self.rewriting_blob_files;
+
+        let current_version = super_version.latest_version();
+
+        for blob_file in /*+*/it:/*-*/ current_version.version.blob_files.iter()
+            /*+*/invariant super_version.h@.len() == n0, !published, created_blob_files@ == written + extra_blob_files@,
+                // C08.12: every relocated (rewritten) blob file stays in the drop list: it is dropped only together with the
+                // publication of the tables that point to its replacement
+                blob_files_to_drop@.len() >= rewritten.len(), blob_files_to_drop@.take(rewritten.len() as int) == rewritten,/*-*/
+        {
+            if blob_file.is_dead(current_version.version.gc_stats()) {
+                blob_files_to_drop.push(blob_file.clone());
+            }
+        }
+
+        super_version.upgrade_version(
+            &opts.config.path,
+            |current/*+*/: &SuperVersion/*-*/| /*+*/-> (o: Result<SuperVersion, Error>)/*-*/ {
+                let mut copy = current.clone();
+                /*+*/proof { assert(created_blob_files@ == written + extra_blob_files@); }/*-*/
+
+                copy.version = copy.version.with_merge(
+                    &payload.table_id_vec(),
+                    &created_tables,
+                    payload.dest_level as usize,
+                    if blob_frag_map_diff.is_empty() {
+                        None
+                    } else {
+                        Some(blob_frag_map_diff)
+                    },
+                    created_blob_files,
+                    &ids_of(&blob_files_to_drop),
+                );
+
+                Ok(copy)
+            },
+            &opts.global_seqno,
+            &opts.visible_seqno,
+        )?;
+        /*+*/proof {
+            assert(super_version.h@.len() == n0 + 1);
+            published = true;
+        }/*-*/
+
+        for table in /*+*/it1:/*-*/ table_ids_to_delete
+            /*+*/invariant published,/*-*/
+        {
+            table.mark_as_deleted(Ghost(published));
+        }
+
+        for blob_file in /*+*/it3:/*-*/ blob_files_to_drop
+            /*+*/invariant published,/*-*/
+        {
+            blob_file.mark_as_deleted(Ghost(published));
+        }
+
+        Ok(())
+    }
+//@ END
+}
+
 } // verus!
 fn main() {}
